@@ -91,6 +91,10 @@ Definition vars : list ventry := [
   owned "neutrino.rescanState.curStamp" [RS] "same";
   owned "neutrino.rescanState.scanning" [RS] "same";
   owned "neutrino.blockRetryQueue.blocks" [RS] "same";
+  (* memory BEHIND pointer fields ("S.f->g": field g of what S.f points to) that is written in place *)
+  owned "neutrino.rescanOptions.endBlock->Hash" [RS]
+        "the caller-supplied *BlockStamp of the EndBlock option: newRescanState resolves it IN PLACE in the rescan goroutine, which is then the only one to look at it";
+  owned "neutrino.rescanOptions.endBlock->Height" [RS] "same";
 
   (* ---- blockntfns/manager.go ---- *)
   atomic "blockntfns.SubscriptionManager.started" "atomic.AddInt32";
@@ -105,6 +109,8 @@ Definition vars : list ventry := [
   owned "query.batchProgress.progressGen" [WD] "per-batch bookkeeping (function-local type of workDispatcher): never leaves the dispatcher; the idle-timer callback gets the generation by value";
   owned "query.batchProgress.progressTimer" [WD] "same; armed / stopped by the dispatcher only";
   owned "query.batchProgress.rem" [WD] "same";
+  owned "query.jobResult.job->timeout" [WD] "the job record behind a worker's result: retried jobs are updated by the dispatcher only, between two loans to a worker";
+  owned "query.jobResult.job->tries" [WD] "same";
 
   (* ---- chanutils/queue.go ---- *)
   mkVar "chanutils.ConcurrentQueue.overflow" (DOwned [CQ]) [] [] "overflow list of the queue's one goroutine";
@@ -135,7 +141,15 @@ Definition outside_table : list (string * string) := [
   ("chainimport.", "headers import: runs to completion inside ChainService.Start before any goroutine of the client is started");
   ("neutrino.cfiltersQuery.", "per-call query object: handed from GetCFilter to one query worker at a time through the work manager's channels, read back after the error channel reports completion (ownership transfer by channel: not modelled; exercised under the race detector by the c05 harness)");
   ("query.queryJob.", "job record: owned by the work dispatcher, lent to one worker at a time over channels (not modelled; exercised by the c12 harness)");
-  ("neutrino.lightHeaderCtx.", "value object created per header check by the block handler")
+  ("neutrino.lightHeaderCtx.", "value object created per header check by the block handler");
+  (* what is reached through pointer fields ("S.f->": everything behind S.f) *)
+  ("chainimport.fileHeaderImportSource.metadata->", "headers import: inside ChainService.Start before any goroutine of the client is started");
+  ("headerfs.BlockHeader.BlockHeader->", "embedded *wire.BlockHeader of a value record: read-only methods (IsEqual, Unix)");
+  ("neutrino.ServerPeer.server->", "the ChainService behind a peer's back pointer: its fields are variables in their own right (chainParams immutable, addrManager is btcd's internally synchronised AddrManager)");
+  ("neutrino.blockManager.cfg->", "configuration record, set before newBlockManager (ChainParams is in the table as neutrino.blockManagerCfg.ChainParams)");
+  ("neutrino.checkpointedCFHeadersQuery.blockMgr->", "the block manager behind a query's back pointer: its fields are variables in their own right (genesisHeader immutable)");
+  ("neutrino.blockManager.syncPeer->", "methods of btcd's *peer.Peer (internally synchronised) reached through a ServerPeer pointer");
+  ("neutrino.headersMsg.peer->", "same"); ("neutrino.invMsg.peer->", "same"); ("neutrino.spMsg.sp->", "same")
 ].
 
 (* Sites exempt from the check, each with its reason. *)
@@ -157,9 +171,25 @@ Definition allow : list aentry := [
   mkAllow "neutrino.zeroHash" "blockmanager.go:blockManager.handleNewPeerMsg" "" KAddr "&zeroHash passed as stop hash (read)";
   mkAllow "neutrino.zeroHash" "blockmanager.go:blockManager.startSync" "" KAddr "same";
   mkAllow "local:neutrino.go:NewChainService:s" "neutrino.go:NewChainService" "" KAddr
-          "return &s after the goroutines that connect to the configured peers were started: the address is returned, nothing is written";
+          "return &s after the goroutines that connect to the configured peers were started: the address is returned, nothing is written"
+].
+
+(* Sites exempt ONLY while no goroutine root reaches their function (dead
+   code / test helpers): allowed_unreached.  The claim "no caller" is checked
+   twice: the exemption lapses by itself when a caller appears (the site then
+   carries its callers' roots and locks), and caller_claims below pins the
+   exact list of uses the translator finds. *)
+Definition allow_unreached : list aentry := [
   mkAllow "neutrino.headerProgressLogger.lastBlockLogTime" "headerlogger.go:headerProgressLogger.SetLastLogTime" "" KWrite
-          "no caller in the checkout (test helper)"
+          "unlocked setter without a caller in the checkout (test helper)"
+].
+
+(* Who uses a function, where an exemption leans on it: must equal the
+   translator's callers_of list (uses = static calls, interface calls, go
+   statements, references as a value, hand-written extra edges). *)
+Definition caller_claims : list (string * list string) := [
+  ("headerlogger.go:headerProgressLogger.SetLastLogTime", []);
+  ("neutrino.go:ServerPeer.OnRead", ["ref:neutrino.go:NewPeerConfig"])
 ].
 
 (* Sites of OPEN findings (known_findings/C18.json): excluded from
